@@ -91,7 +91,7 @@ def concretise(chk, sc, cfgseed, ndims, style=None):
     style = style or {}
     cfg_ = gamma.Config.draw(rng, ndims=ndims, payload=style.get("payload", "tame"))
     ap = build_ap(sc, ndims)
-    d = os.path.join(chk.tmp(), "p")
+    d = os.path.join(chk.tmp_reuse(), "p")
     os.makedirs(os.path.dirname(d))
     reg = gamma.write_plotfile(d, ap, cfg_)
     lv = sc["cl"] - 1
